@@ -13,7 +13,7 @@ from pvf.core.model import REPO   # noqa: E402
 
 def job(a):
     pid, rel, name = a
-    fn = dict(variants.EXTRA + variants.EXTRA2 + variants.EXTRA3 + variants.EXTRA4 + variants.COMBOS)[name]
+    fn = dict(variants.EXTRA + variants.EXTRA2 + variants.EXTRA3 + variants.EXTRA4 + variants.COMBOS + variants.EXTRA5)[name]
     src = open(os.path.join(REPO, rel)).read()
     try:
         new = fn(src)
